@@ -668,7 +668,10 @@ fn index_sigs(tu: bool) -> [u64; 2] {
 fn index_window(tu: bool, row: u32, k: usize) -> (usize, usize) {
     let t = tu as usize;
     let r = (row - 1) as usize;
-    (1 + 2 * t + 7 * r + 3 * k, 3 + k + 2 * t + 4 * r)
+    // the second unit contributes nothing to its second column (a unit without, say, location
+    // lists in a package where other units have them): offset as usual, size 0
+    let size = if r == 1 && k == 1 { 0 } else { 3 + k + 2 * t + 4 * r };
+    (1 + 2 * t + 7 * r + 3 * k, size)
 }
 
 /// A version 5 or 2 index with two units in a four-slot hash table.
@@ -785,7 +788,7 @@ fn check_units<'a>(ctx: &mut Ctx<'_>, p: &DwarfPackage<R<'a>>, parent: &Dwarf<R<
                             let (off, size) = index_window(tu, row, k);
                             let want = &buf[off..off + size];
                             ev!(ctx, "{} {} window {}+{}", what, id.name(), off, size);
-                            if got != want || got.as_ptr() != want.as_ptr() {
+                            if got != want || (size > 0 && got.as_ptr() != want.as_ptr()) {
                                 ctx.violate(
                                     "c17_routing",
                                     format!("{}: {} contribution is not window {}+{} of the package's {}", what, id.name(), off, size, id.name()),
